@@ -14,11 +14,22 @@ import (
 	"math/rand"
 	"net/http"
 	"net/http/httptest"
+	"net/url"
 	"sort"
 	"strings"
 	"time"
 
+	"bytes"
+
 	"github.com/ClickHouse/ch-go/proto"
+	"github.com/golang/snappy"
+	pprof_proto "github.com/google/pprof/profile"
+	"github.com/metrico/qryn/writer/utils/proto/logproto"
+	"github.com/metrico/qryn/writer/utils/proto/prompb"
+	v11 "go.opentelemetry.io/proto/otlp/common/v1"
+	resv1 "go.opentelemetry.io/proto/otlp/resource/v1"
+	trace "go.opentelemetry.io/proto/otlp/trace/v1"
+	gproto "google.golang.org/protobuf/proto"
 	controllerv1 "github.com/metrico/qryn/writer/controller"
 	"github.com/metrico/qryn/writer/config"
 	"github.com/metrico/qryn/writer/model"
@@ -51,8 +62,9 @@ type Item struct {
 	Err   bool     `json:"err,omitempty"`
 }
 type HReq struct {
-	Route string `json:"route"` // loki | zipkin
-	Body  string `json:"body"`  // hex
+	Route string `json:"route"` // loki | zipkin | lokiproto | prom | otlp | profile
+	Body  string `json:"body"`  // hex (as sent on the wire)
+	Query string `json:"query,omitempty"`
 	Items []Item `json:"items"` // what the parser emits for this body (learnt by a dry run)
 }
 type Op2 struct {
@@ -132,10 +144,40 @@ func reqRowKeys(kind string, r helpers.SizeGetter) ([]string, bool) {
 		add(len(d.MSpanId), func(i int) string { return fmtBytes(d.MSpanId[i]) })
 		add(len(d.MTimestampNs), func(i int) string { return fmt.Sprint(d.MTimestampNs[i]) })
 		add(len(d.MDurationNs), func(i int) string { return fmt.Sprint(d.MDurationNs[i]) })
+	case "profile":
+		d := r.(*model.ProfileData)
+		one := func(v interface{}) { add(1, func(i int) string { return fmt.Sprint(v) }) }
+		add(len(d.TimestampNs), func(i int) string { return fmt.Sprint(d.TimestampNs[i]) })
+		add(len(d.Ptype), func(i int) string { return d.Ptype[i] })
+		add(len(d.ServiceName), func(i int) string { return d.ServiceName[i] })
+		one(d.SamplesTypesUnits)
+		add(len(d.PeriodType), func(i int) string { return d.PeriodType[i] })
+		add(len(d.PeriodUnit), func(i int) string { return d.PeriodUnit[i] })
+		one(d.Tags)
+		add(len(d.DurationNs), func(i int) string { return fmt.Sprint(d.DurationNs[i]) })
+		add(len(d.PayloadType), func(i int) string { return d.PayloadType[i] })
+		add(len(d.Payload), func(i int) string { return string(d.Payload[i]) })
+		one(d.ValuesAgg)
+		one(treeKey(d.Tree))
+		one(d.Function)
 	default:
 		return nil, false
 	}
 	return joinCols(cols)
+}
+
+// treeKey renders a call tree without the second value of the value tuples: service.ColTupleTreeValueAdapter.Row
+// (only used to read a column back, as here) returns the first value twice
+func treeKey(tr []model.TreeRootStructure) string {
+	var sb strings.Builder
+	for _, n := range tr {
+		fmt.Fprintf(&sb, "(%d %d %d", n.Field1, n.Field2, n.Field3)
+		for _, v := range n.ValueArrTuple {
+			fmt.Fprintf(&sb, " %s:%d", v.ValueStr, v.FirstValueInt64)
+		}
+		sb.WriteString(")")
+	}
+	return sb.String()
 }
 
 func joinCols(cols [][]string) ([]string, bool) {
@@ -190,6 +232,22 @@ func colStrings(d proto.ColInput) []string {
 	case *proto.ColFixedStr:
 		for i := 0; i < c.Rows(); i++ {
 			o = append(o, fmtBytes(c.Row(i)))
+		}
+	case *proto.ColArr[model.StrStr]:
+		for i := 0; i < c.Rows(); i++ {
+			o = append(o, fmt.Sprint(c.Row(i)))
+		}
+	case *proto.ColArr[model.ValuesAgg]:
+		for i := 0; i < c.Rows(); i++ {
+			o = append(o, fmt.Sprint(c.Row(i)))
+		}
+	case *proto.ColArr[model.TreeRootStructure]:
+		for i := 0; i < c.Rows(); i++ {
+			o = append(o, treeKey(c.Row(i)))
+		}
+	case *proto.ColArr[model.Function]:
+		for i := 0; i < c.Rows(); i++ {
+			o = append(o, fmt.Sprint(c.Row(i)))
 		}
 	default:
 		for i := 0; i < d.Rows(); i++ {
@@ -298,7 +356,9 @@ func parserCtx() context.Context {
 
 // dryParse runs the exported parser of the route on the body and turns its output into model items, giving
 // every emitted row an id
-func (b *bench2) dryParse(route string, body []byte) []Item {
+func (b *bench2) dryParse(hr *HReq) []Item {
+	route := hr.Route
+	body, _ := hex.DecodeString(hr.Body)
 	var ch chan *model.ParserResponse
 	cache := numbercache.NewCache[uint64](time.Hour, func(v uint64) []byte {
 		x := make([]byte, 8)
@@ -306,12 +366,30 @@ func (b *bench2) dryParse(route string, body []byte) []Item {
 		return x
 	}, map[string]*model.DataDatabasesMap{"n": node2})
 	defer cache.Stop()
-	rd := strings.NewReader(string(body))
+	unsnap := func() []byte {
+		if u, err := snappy.Decode(nil, body); err == nil {
+			return u
+		}
+		return body
+	}
 	switch route {
 	case "loki":
-		ch = unmarshal.DecodePushRequestStringV2(parserCtx(), rd, cache.DB("n"))
+		ch = unmarshal.DecodePushRequestStringV2(parserCtx(), bytes.NewReader(body), cache.DB("n"))
 	case "zipkin":
-		ch = unmarshal.UnmarshalZipkinJSONV2(parserCtx(), rd, cache.DB("n"))
+		ch = unmarshal.UnmarshalZipkinJSONV2(parserCtx(), bytes.NewReader(body), cache.DB("n"))
+	case "lokiproto":
+		ch = unmarshal.UnmarshalProtoV2(parserCtx(), bytes.NewReader(unsnap()), cache.DB("n"))
+	case "prom":
+		ch = unmarshal.UnmarshallMetricsWriteProtoV2(parserCtx(), bytes.NewReader(unsnap()), cache.DB("n"))
+	case "otlp":
+		ch = unmarshal.UnmarshalOTLPV2(parserCtx(), bytes.NewReader(body), cache.DB("n"))
+	case "profile":
+		ctx := parserCtx()
+		q, _ := url.ParseQuery(hr.Query)
+		for _, k := range []string{"from", "name", "until"} {
+			ctx = context.WithValue(ctx, k, q.Get(k))
+		}
+		ch = unmarshal.UnmarshalBinaryStreamProfileProtoV2(ctx, bytes.NewReader(body), cache.DB("n"))
 	}
 	var items []Item
 	for resp := range ch {
@@ -391,8 +469,12 @@ func start2(c *Case2) *runner2 {
 	config.Cloki.Setting.SYSTEM_SETTINGS.RetryTimeoutS = 0
 	cfg := controllerv1.NewMiddlewareConfig(controllerv1.WithExtraMiddlewareDefault...)
 	r.handlers = map[string]func(w http.ResponseWriter, r *http.Request){
-		"loki":   controllerv1.PushStreamV2(cfg),
-		"zipkin": controllerv1.PushV2(cfg),
+		"loki":      controllerv1.PushStreamV2(cfg),
+		"lokiproto": controllerv1.PushStreamV2(cfg),
+		"zipkin":    controllerv1.PushV2(cfg),
+		"prom":      controllerv1.WriteStreamV2(cfg),
+		"otlp":      controllerv1.OTLPPushV2(cfg),
+		"profile":   controllerv1.PushProfileV2(cfg),
 	}
 	deadline := time.Now().Add(10 * time.Second)
 	for {
@@ -411,8 +493,21 @@ func start2(c *Case2) *runner2 {
 
 func (r *runner2) serve(h int, req *HReq) {
 	body, _ := hex.DecodeString(req.Body)
-	hr := httptest.NewRequest("POST", "/push", strings.NewReader(string(body)))
-	hr.Header.Set("Content-Type", "application/json")
+	target := "/push"
+	if req.Query != "" {
+		target += "?" + req.Query
+	}
+	hr := httptest.NewRequest("POST", target, bytes.NewReader(body))
+	switch req.Route {
+	case "lokiproto", "prom":
+		hr.Header.Set("Content-Type", "application/x-protobuf")
+	case "otlp":
+		hr.Header.Set("Content-Type", "application/x-protobuf")
+	case "profile":
+		hr.Header.Set("Content-Type", "binary/octet-stream")
+	default:
+		hr.Header.Set("Content-Type", "application/json")
+	}
 	w := httptest.NewRecorder()
 	r.handlers[req.Route](w, hr)
 	io.Copy(io.Discard, w.Result().Body)
@@ -463,8 +558,7 @@ func (r *runner2) finish() {
 func runScript2(c *Case2) {
 	r := start2(c)
 	for i := range c.Reqs {
-		body, _ := hex.DecodeString(c.Reqs[i].Body)
-		c.Reqs[i].Items = r.b.dryParse(c.Reqs[i].Route, body)
+		c.Reqs[i].Items = r.b.dryParse(&c.Reqs[i])
 	}
 	c.Obs = nil
 	for i := range c.Ops {
@@ -506,6 +600,83 @@ func zipkinBody(r *rand.Rand, tag string, uniq *int64) (string, int) {
 	return "[" + strings.Join(spans, ",") + "]", n
 }
 
+func lokiProtoBody(r *rand.Rand, tag string, uniq *int64) ([]byte, int) {
+	req := &logproto.PushRequest{}
+	rows := 0
+	for s := 0; s < 1+r.Intn(2); s++ {
+		st := &logproto.StreamAdapter{Labels: fmt.Sprintf(`{job="%s", s="%d"}`, tag, s)}
+		for v := 0; v < 1+r.Intn(3); v++ {
+			*uniq++
+			st.Entries = append(st.Entries, &logproto.EntryAdapter{
+				Timestamp: &logproto.Timestamp{Seconds: 1700000000, Nanos: int32(*uniq % 1000000000)},
+				Line:      fmt.Sprintf("pline %s %d", tag, *uniq)})
+			rows++
+		}
+		req.Streams = append(req.Streams, st)
+	}
+	b, _ := gproto.Marshal(req)
+	return snappy.Encode(nil, b), rows
+}
+
+func promBody(r *rand.Rand, tag string, uniq *int64) ([]byte, int) {
+	req := &prompb.WriteRequest{}
+	rows := 0
+	for s := 0; s < 1+r.Intn(2); s++ {
+		ts := &prompb.TimeSeries{Labels: []*prompb.Label{{Name: "__name__", Value: "m_" + tag}, {Name: "s", Value: fmt.Sprint(s)}}}
+		for v := 0; v < 1+r.Intn(3); v++ {
+			*uniq++
+			ts.Samples = append(ts.Samples, &prompb.Sample{Value: float64(*uniq), Timestamp: 1700000000000 + *uniq})
+			rows++
+		}
+		req.Timeseries = append(req.Timeseries, ts)
+	}
+	b, _ := gproto.Marshal(req)
+	return snappy.Encode(nil, b), rows
+}
+
+func otlpBody(r *rand.Rand, tag string, uniq *int64) ([]byte, int) {
+	str := func(k, v string) *v11.KeyValue {
+		return &v11.KeyValue{Key: k, Value: &v11.AnyValue{Value: &v11.AnyValue_StringValue{StringValue: v}}}
+	}
+	n := 1 + r.Intn(3)
+	var spans []*trace.Span
+	for i := 0; i < n; i++ {
+		*uniq++
+		tid := make([]byte, 16)
+		sid := make([]byte, 8)
+		binary.BigEndian.PutUint64(tid[8:], uint64(*uniq))
+		binary.BigEndian.PutUint64(sid, uint64(*uniq))
+		spans = append(spans, &trace.Span{TraceId: tid, SpanId: sid, Name: "op-" + tag,
+			StartTimeUnixNano: uint64(1700000000000000000 + *uniq), EndTimeUnixNano: uint64(1700000000000000500 + *uniq),
+			Attributes: []*v11.KeyValue{str("k", fmt.Sprint(*uniq))}})
+	}
+	td := &trace.TracesData{ResourceSpans: []*trace.ResourceSpans{{
+		Resource:   &resv1.Resource{Attributes: []*v11.KeyValue{str("service.name", "svc-"+tag)}},
+		ScopeSpans: []*trace.ScopeSpans{{Spans: spans}}}}}
+	b, _ := gproto.Marshal(td)
+	return b, n
+}
+
+func profileBody(r *rand.Rand, tag string, uniq *int64) ([]byte, string, int) {
+	*uniq++
+	fn := &pprof_proto.Function{ID: 1, Name: "main.f_" + tag, SystemName: "main.f_" + tag, Filename: "f.go"}
+	fn2 := &pprof_proto.Function{ID: 2, Name: "main.g", SystemName: "main.g", Filename: "g.go"}
+	loc := &pprof_proto.Location{ID: 1, Address: 0x10, Line: []pprof_proto.Line{{Function: fn, Line: 1}}}
+	loc2 := &pprof_proto.Location{ID: 2, Address: 0x20, Line: []pprof_proto.Line{{Function: fn2, Line: 2}}}
+	p := &pprof_proto.Profile{
+		SampleType: []*pprof_proto.ValueType{{Type: "cpu", Unit: "nanoseconds"}},
+		PeriodType: &pprof_proto.ValueType{Type: "cpu", Unit: "nanoseconds"}, Period: 10,
+		Sample: []*pprof_proto.Sample{{Location: []*pprof_proto.Location{loc, loc2}, Value: []int64{10 + *uniq%50}},
+			{Location: []*pprof_proto.Location{loc2}, Value: []int64{5}}},
+		Location: []*pprof_proto.Location{loc, loc2}, Function: []*pprof_proto.Function{fn, fn2},
+	}
+	var buf bytes.Buffer
+	p.Write(&buf)
+	from := 1700000000 + *uniq
+	q := url.Values{"from": {fmt.Sprint(from)}, "until": {fmt.Sprint(from + 10)}, "name": {"app_" + tag + "{c=" + tag + "}"}}
+	return buf.Bytes(), q.Encode(), 1
+}
+
 func (g *gen) runGenerated2(c *Case2, uniq *int64) {
 	r := g.r
 	c.Attempts = r.Intn(4)
@@ -528,7 +699,7 @@ func (g *gen) runGenerated2(c *Case2, uniq *int64) {
 		h := len(c.Reqs)
 		tag := fmt.Sprintf("c%dh%d", c.ID, h)
 		var hr HReq
-		switch x := r.Intn(10); {
+		switch x := r.Intn(20); {
 		case x < 5:
 			body, rows := lokiBody(r, tag, uniq)
 			hr = HReq{Route: "loki", Body: hex.EncodeToString([]byte(body))}
@@ -537,17 +708,32 @@ func (g *gen) runGenerated2(c *Case2, uniq *int64) {
 			body, rows := zipkinBody(r, tag, uniq)
 			hr = HReq{Route: "zipkin", Body: hex.EncodeToString([]byte(body))}
 			c.Rows += rows
+		case x < 11:
+			body, rows := lokiProtoBody(r, tag, uniq)
+			hr = HReq{Route: "lokiproto", Body: hex.EncodeToString(body)}
+			c.Rows += rows
+		case x < 14:
+			body, rows := promBody(r, tag, uniq)
+			hr = HReq{Route: "prom", Body: hex.EncodeToString(body)}
+			c.Rows += rows
+		case x < 16:
+			body, rows := otlpBody(r, tag, uniq)
+			hr = HReq{Route: "otlp", Body: hex.EncodeToString(body)}
+			c.Rows += rows
+		case x < 18:
+			body, q, rows := profileBody(r, tag, uniq)
+			hr = HReq{Route: "profile", Body: hex.EncodeToString(body), Query: q}
+			c.Rows += rows
 		default:
 			hr = HReq{Route: []string{"loki", "zipkin"}[r.Intn(2)], Body: hex.EncodeToString([]byte(`{"streams":[{"stream":{"a":`))}
 		}
-		body, _ := hex.DecodeString(hr.Body)
-		hr.Items = rn.b.dryParse(hr.Route, body)
+		hr.Items = rn.b.dryParse(&hr)
 		c.Reqs = append(c.Reqs, hr)
 		step(Op2{T: "http", H: h})
 	}
 	nops := 6 + r.Intn(14)
 	for i := 0; i < nops && rn.b.trouble == ""; i++ {
-		s := r.Intn(len(l2kinds) - 1) // the profile worker gets no traffic from these routes
+		s := r.Intn(len(l2kinds))
 		rn.b.mu.Lock()
 		fl, bf := rn.b.inflight[s], rn.b.before[s]
 		rn.b.mu.Unlock()
